@@ -258,6 +258,13 @@ func runC19(res *lib.Result, tier string, seed int64, args []string) error {
 			files["f0.lua"] += fmt.Sprintf("GEw%d = {}\n", wi)
 			files["f1.lua"] += fmt.Sprintf("function GEw%d.crossE%d(a)\n  return a\nend\n", wi, wi)
 		}
+		var classReqs [][2]string // file, class name: annotation classes, findable by name and in the outline at their line
+		if !many {
+			// a global and a function with one-character names (queried by that name), and two classes declared in ONE
+			// comment block
+			files["nest.lua"] += fmt.Sprintf("q = 5\nfunction z() end\n---@class CAw%d\n---@class CBw%d : CAw%d\nlocal cbw%d = {}\nprint(cbw%d)\n", wi, wi, wi, wi, wi)
+			classReqs = append(classReqs, [2]string{"nest.lua", fmt.Sprintf("CAw%d", wi)}, [2]string{"nest.lua", fmt.Sprintf("CBw%d", wi)})
+		}
 		if !many {
 			// the default idiom: the constructor behind `or` declares the members (global and local table)
 			files["nest.lua"] += fmt.Sprintf("ModD%d = ModD%d or { runD%d = function() end, verD%d = 1 }\nfunction ModD%d.stopD%d() end\nlocal CacheD%d = CacheD%d or { getD%d = function(k) return k end }\nprint(CacheD%d)\n", wi, wi, wi, wi, wi, wi, wi, wi, wi, wi)
@@ -398,6 +405,34 @@ func runC19(res *lib.Result, tier string, seed int64, args []string) error {
 			}
 			if !ok {
 				res.AddViolation("impl-vs-spec", fmt.Sprintf("workspace/symbol %q (%d answers) has no entry of that name on the line of the declaration", bf[1], len(ws)), caseText, false)
+			}
+		}
+		for _, cr := range classReqs {
+			caseText := fmt.Sprintf("annotation class %s; %s:\n%s", cr[1], cr[0], files[cr[0]])
+			flines := strings.Split(files[cr[0]], "\n")
+			onLine := func(ln int) bool { return ln < len(flines) && strings.HasPrefix(flines[ln], "---@class "+cr[1]) }
+			res.Dist("wsquery.class")
+			if ws, err := sess.WorkspaceSymbol(cr[1]); err != nil {
+				res.AddViolation("crash-or-timeout", err.Error(), caseText, false)
+			} else {
+				ok := false
+				for _, w := range ws {
+					ok = ok || (w.Name == cr[1] && sess.Rel(w.Location.URI) == cr[0] && onLine(w.Location.Range.Start.Line))
+				}
+				if !ok {
+					res.AddViolation("impl-vs-spec", fmt.Sprintf("workspace/symbol %q (%d answers) has no entry of that name on the line of its ---@class declaration", cr[1], len(ws)), caseText, false)
+				}
+			}
+			if syms, err := sess.DocumentSymbol(cr[0]); err == nil {
+				var flat []flatSym
+				flattenSyms(syms, &flat)
+				ok := false
+				for _, y := range flat {
+					ok = ok || (y.name == cr[1] && onLine(y.rg.Start.Line))
+				}
+				if !ok {
+					res.AddViolation("impl-vs-spec", fmt.Sprintf("the outline has no entry %q on the line of its ---@class declaration", cr[1]), caseText, false)
+				}
 			}
 		}
 		sess.Close()
